@@ -48,12 +48,17 @@ theorem forIn_count {α σ : Type} (f : α → σ × Nat → R (ForInStep (σ ×
     have := ih _ _ h2
     simp only [List.length_cons]; omega
 
+/-- the length of the authorization list (0 without one) -/
+def authLen (e : Evm.Env) : Nat := match e.tx.authList with | some l => l.length | none => 0
+
+theorem authLen_none {e : Evm.Env} (h : e.tx.authList = none) : authLen e = 0 := by unfold authLen; rw [h]
+
 /-- what `apply_eip7702_auth_list` hands to the gas pipeline: `k` refunded authorities, `k` at most the length of the
 list, as `k · (PER_EMPTY_ACCOUNT_COST − PER_AUTH_BASE_COST)` in `u64` -/
 theorem applyAuthList_refund (e : Evm.Env) (spec : Nat) (w w' : World) (r : Nat)
     (h : applyAuthList e spec w = .ok (w', r)) :
     ∃ k, r = U64ops.wmul k (Evm.PER_EMPTY_ACCOUNT_COST - Evm.PER_AUTH_BASE_COST) ∧
-      k ≤ (match e.tx.authList with | some l => l.length | none => 0) := by
+      k ≤ authLen e := by
   unfold applyAuthList at h
   simp only [bind, Except.bind, pure, Except.pure] at h
   split at h
@@ -78,7 +83,7 @@ theorem applyAuthList_refund (e : Evm.Env) (spec : Nat) (w w' : World) (r : Nat)
           · split at hst
             · simp only [Except.ok.injEq] at hst; subst hst; exact ⟨_, rfl, by simp, by simp⟩
             · simp only [Except.ok.injEq] at hst; subst hst; exact ⟨_, rfl, by simp, by simp⟩) l (w, 0) v hv
-        exact ⟨v.2, h.2.symm, by show v.2 ≤ l.length; omega⟩
+        exact ⟨v.2, h.2.symm, by unfold authLen; rw [hal]; show v.2 ≤ l.length; omega⟩
 
 /-! ## the stages of an executed transaction -/
 
@@ -91,7 +96,7 @@ theorem transact_executed_stages (fuel : Nat) (w w' : World) (e : Evm.Env) (spec
       preverify w e (GasCalc.canon spec) = .ok (some (w1, ig, fg)) ∧
       prepare journalOps e (GasCalc.canon spec) ig w1 =
         .ok (first, w2, isCreate, U64ops.wmul k (Evm.PER_EMPTY_ACCOUNT_COST - Evm.PER_AUTH_BASE_COST)) ∧
-      k ≤ (match e.tx.authList with | some l => l.length | none => 0) ∧
+      k ≤ authLen e ∧
       runFirst journalOps (e.toCfg (GasCalc.canon spec)) fuel first w2 = .ok (res, w3) ∧
       finish e (GasCalc.canon spec) fg (U64ops.wmul k (Evm.PER_EMPTY_ACCOUNT_COST - Evm.PER_AUTH_BASE_COST))
         isCreate res w3 = .ok (r, w') := by
